@@ -240,6 +240,17 @@ def query_triples(rng, X, n, klass):
     T[:, 1] = np.nextafter(T[:, 0], np.inf)
     T[:, 2] = np.nextafter(T[:, 0], -np.inf)
     return T
+  if klass == 'near':
+    # chains of nearly coincident, distinct points (the same measurement
+    # re-read with a relative jitter of 1e-13 .. 1e-9): "equal up to a
+    # tolerance" is not transitive, the distance has to be
+    T = X[rng.randint(0, N, size=(n, 3))].copy()
+    T[:, 0] = np.where(T[:, 0] == 0, 1.0, T[:, 0])
+    a = 10.0 ** rng.uniform(-13, -9, size=(n, 1)) * rng.uniform(0.6, 0.95,
+                                                                 size=(n, 1))
+    T[:, 1] = T[:, 0] * (1 + a)
+    T[:, 2] = T[:, 0] * (1 + 2 * a)
+    return T
   if klass == 'far':
     return X.mean(0) + rng.randn(n, 3, d) * span * 1e6
   if klass == 'magnitude':
@@ -301,7 +312,7 @@ def nullspace_triples(rng, X, L, n):
 
 
 QUERY_CLASSES = ['train', 'gauss', 'dup', 'ulp', 'far', 'magnitude',
-                 'mixed_magnitude', 'int', 'axis', 'ladder']
+                 'mixed_magnitude', 'int', 'axis', 'ladder', 'near']
 
 
 def spd_matrix(rng, d, cond=10.0):
